@@ -94,13 +94,24 @@ type Tree struct {
 	R  *Tree  `json:"r,omitempty"`
 }
 
+// DeclItem: one field of the declared mapping (Parser.tla section v): its types in declaration order, the entry
+// without a title is the field itself
+type DeclType struct {
+	Title string `json:"title"`
+	Typ   string `json:"typ"`
+}
+type DeclItem struct {
+	Name  string     `json:"name"`
+	Types []DeclType `json:"types"`
+}
+
 type Case struct {
 	Kind    string            `json:"kind"`
 	Label   string            `json:"label"`
 	Q       []string          `json:"q"`
 	Langs   []string          `json:"langs"`
 	NilMap  bool              `json:"nilmap"`
-	Fields  map[string]string `json:"fields"`
+	Decl    []DeclItem        `json:"decl"`
 	Atoms   [][2]string       `json:"atoms"`
 	TT      []int             `json:"tt"`
 	AST     *Tree             `json:"ast"`
@@ -130,6 +141,17 @@ func walkMapping(kind string) (seq.Mapping, error) {
 		return nil, nil
 	case "unmapped":
 		return seq.Mapping{"g": seq.NewSingleType(seq.TokenizerTypeKeyword, "", 0)}, nil
+	case "multi2": // the same types as "multi", declared keyword first, converted by the real seq.ReadMapping
+		m, err := readDecl([]DeclItem{{Name: "x", Types: []DeclType{{"", "keyword"}}},
+			{Name: "f", Types: []DeclType{{"keyword", "keyword"}, {"", "text"}}}})
+		if err != nil {
+			return nil, err
+		}
+		cp := seq.Mapping{} // the store mode adds a key: never hand out the cached map
+		for k, v := range m {
+			cp[k] = v
+		}
+		return cp, nil
 	case "multi":
 		return seq.Mapping{
 			"x": seq.NewSingleType(seq.TokenizerTypeKeyword, "", 0),
@@ -148,15 +170,51 @@ func walkMapping(kind string) (seq.Mapping, error) {
 	return seq.Mapping{"x": seq.NewSingleType(seq.TokenizerTypeKeyword, "", 0), "f": seq.NewSingleType(t, "", 0)}, nil
 }
 
-func semMapping(fields map[string]string) (seq.Mapping, error) {
-	m := seq.Mapping{}
-	for f, tn := range fields {
-		t, ok := typeByName[tn]
-		if !ok {
-			return nil, fmt.Errorf("unknown field type %q", tn)
+// declYAML writes the declared mapping in the format of the mapping file (names and type words in the order of
+// the declaration; nothing is decided here): a field with one untitled type in the old `type:` form, every other
+// one as a `types:` list.
+func declYAML(items []DeclItem) string {
+	var b strings.Builder
+	b.WriteString("mapping-list:\n")
+	for _, it := range items {
+		fmt.Fprintf(&b, "  - name: %s\n", it.Name)
+		if len(it.Types) == 1 && it.Types[0].Title == "" {
+			fmt.Fprintf(&b, "    type: %s\n", it.Types[0].Typ)
+			continue
 		}
-		m[f] = seq.NewSingleType(t, "", 0)
+		b.WriteString("    types:\n")
+		for _, t := range it.Types {
+			if t.Title != "" {
+				fmt.Fprintf(&b, "      - title: %s\n        type: %s\n", t.Title, t.Typ)
+			} else {
+				fmt.Fprintf(&b, "      - type: %s\n", t.Typ)
+			}
+		}
 	}
+	return b.String()
+}
+
+var (
+	mapMu    sync.Mutex
+	mappings = map[string]seq.Mapping{}
+)
+
+// readDecl: the real conversion (seq.ReadMapping) of a declared mapping, cached per YAML text
+func readDecl(items []DeclItem) (seq.Mapping, error) {
+	if len(items) == 0 {
+		return nil, fmt.Errorf("case without a declared mapping")
+	}
+	y := declYAML(items)
+	mapMu.Lock()
+	defer mapMu.Unlock()
+	if m, ok := mappings[y]; ok {
+		return m, nil
+	}
+	m, err := seq.ReadMapping([]byte(y))
+	if err != nil {
+		return nil, fmt.Errorf("seq.ReadMapping rejects the declared mapping: %v\n%s", err, y)
+	}
+	mappings[y] = m
 	return m, nil
 }
 
@@ -399,7 +457,7 @@ func (w *worker) runSem(n int, c *Case, st *stats) {
 		atomSet[c.Atoms[i]] = true
 	}
 	c.AST.unname()
-	typed, err := semMapping(c.Fields)
+	typed, err := readDecl(c.Decl)
 	if err != nil {
 		emit(map[string]any{"infra": err.Error()})
 		os.Exit(3)
@@ -429,6 +487,7 @@ func (w *worker) runSem(n int, c *Case, st *stats) {
 			runs = append(runs, run{fn, "nil", nil})
 		}
 	}
+	words := map[string]string{} // entry point -> the leaves of its tree under the declared mapping
 	for _, r := range runs {
 		atomic.AddInt64(&st.evals, 1)
 		ast, outcome, msg := w.call(n, r.fn, r.mp, q, parseWith(r.fn, q, r.m))
@@ -456,6 +515,11 @@ func (w *worker) runSem(n int, c *Case, st *stats) {
 				"tree": got})
 			continue
 		}
+		if r.mp == "typed" {
+			ls := leaves(got, nil)
+			sort.Strings(ls)
+			words[r.fn] = strings.Join(ls, " ")
+		}
 		if reflect.DeepEqual(got, c.AST) {
 			atomic.AddInt64(&st.shapeEq, 1)
 		} else if atomic.AddInt64(&st.shapeDiff, 1) <= 3 {
@@ -463,6 +527,23 @@ func (w *worker) runSem(n int, c *Case, st *stats) {
 			emit(map[string]any{"n": n, "what": "shape drift", "fn": r.fn, "q": qshow, "got": got, "exp": c.AST})
 		}
 	}
+	// the two languages read the same text: the same (case-folded) terms
+	if a, ok := words["ParseSeqQL"]; ok {
+		if b, ok := words["ParseQuery"]; ok && a != b {
+			emit(map[string]any{"n": n, "what": "parsers disagree", "fn": "ParseQuery", "map": "typed", "got": b, "exp": a, "q": qshow})
+		}
+	}
+}
+
+// leaves lists the literals of a tree from left to right.
+func leaves(t *Tree, out []string) []string {
+	if t == nil {
+		return out
+	}
+	if t.Op == "lit" {
+		return append(out, strconv.QuoteToASCII(t.F+":"+t.W))
+	}
+	return leaves(t.R, leaves(t.L, out))
 }
 
 var fns = []string{"ParseSeqQL", "ParseQuery"}
